@@ -85,9 +85,14 @@ pub fn scenarios(prop: &str, tier: &str) -> Vec<Scenario> {
         // goal bias 1: every sample comes from the goal sampler (alphabet = goal samples)
         if prop == "C16" {
             for &pk in &Pk::TREES {
-                let mut sc = b.scenario(b.world_free(), b.params(pk, 1.0, 1.5, 1.0), &format!("{prop}/{kit}/free/{}x1/bias1", pk.name()));
-                sc.alphabet = sc.goal_samples.clone();
-                out.push(sc);
+                // (obstructed worlds too: what happens after a goal-directed extension was blocked)
+                for w in [b.world_free(), b.world_named("subset0001", vec![b.obstacles[0].clone()]), b.world_named("subset0110", vec![b.obstacles[1].clone(), b.obstacles[2].clone()])] {
+                    for sm in [1.0, 0.6] {
+                        let mut sc = b.scenario(w.clone(), b.params(pk, sm, 1.5, 1.0), &format!("{prop}/{kit}/{}/{}x{sm}/bias1", w.name, pk.name()));
+                        sc.alphabet = sc.goal_samples.clone();
+                        out.push(sc);
+                    }
+                }
             }
         }
     }
